@@ -81,7 +81,7 @@ func checkC18(p *load.Program, r *kit.Report) {
 		reach := kit.Reach(f, starts, kit.Opts{BlockEdge: kit.EdgeSet(edgesOf(errNilGuards(f, check), true)...)})
 		bad = ""
 		for _, ret := range kit.Returns(f) {
-			if reach.Has(ret) && kit.ReturnErrClass(ret) != kit.ErrNonNil {
+			if reach.Has(ret) && reach.ErrClass(ret) != kit.ErrNonNil {
 				bad = "a proof that carries a header can verify without that header being looked up: " + reach.PathTo(ret, p.Pos)
 			}
 		}
@@ -181,7 +181,7 @@ func checkC18(p *load.Program, r *kit.Report) {
 		reach := kit.Reach(dep, starts, kit.Opts{BlockEdge: kit.EdgeSet(edgesOf(eq, true)...)})
 		bad := ""
 		for _, ret := range kit.Returns(dep) {
-			if reach.Has(ret) && kit.ReturnErrClass(ret) != kit.ErrNonNil {
+			if reach.Has(ret) && reach.ErrClass(ret) != kit.ErrNonNil {
 				bad = "the dependency's Verify can return nil with a header present without comparing the computed root with the header's merkle root"
 			}
 		}
@@ -518,7 +518,7 @@ func checkC19(p *load.Program, r *kit.Report) {
 	// CALL-SITE
 	for _, s := range []struct {
 		fn, callee string
-		want    int64
+		want       int64
 	}{{"BitcoinNode.sendInitialHeaderRequest", ".GetLocatorHashes", 10}, {"BitcoinNode.sendHeaderRequest", ".GetLocatorHashes", 3}, {"BitcoinNode.sendVerifyHeaderRequest", ".GetVerifyOnlyLocatorHashes", 0}} {
 		f := fn(p, r, "CALL-SITE", R, s.fn)
 		if f == nil {
